@@ -56,6 +56,8 @@ pub struct Scenario {
     pub long_table: bool,
     /// addresses whose stored history (`/track?icao24=`) is fetched once everything has been processed
     pub track: Vec<u32>,
+    /// run without `--verbose`: nothing is printed, only the REST endpoints show what happened
+    pub quiet: bool,
 }
 
 pub struct Outcome {
@@ -82,7 +84,9 @@ pub enum Fail {
     Died(String),
 }
 
-pub const MARKER_ADDR: u32 = 0xfffff0;
+pub const MARKER_ADDR: u32 = 0xfffe00;
+/// number of reserved marker addresses (one per source)
+pub const MARKERS: u32 = 16;
 
 pub struct Env {
     pub bin: String,
@@ -124,7 +128,7 @@ pub fn beast_stamped(frame: &[u8], n: u64, clock_offset_s: Option<f64>) -> Vec<u
 
 /// is this the displayed address of a marker?
 pub fn is_marker(icao24: &Value) -> bool {
-    icao24.as_str().and_then(|s| u32::from_str_radix(s, 16).ok()).map(|a| (MARKER_ADDR..MARKER_ADDR + 4).contains(&a)).unwrap_or(false)
+    icao24.as_str().and_then(|s| u32::from_str_radix(s, 16).ok()).map(|a| (MARKER_ADDR..MARKER_ADDR + MARKERS).contains(&a)).unwrap_or(false)
 }
 
 fn marker(source: usize, k: u32) -> Vec<u8> {
@@ -177,7 +181,7 @@ pub fn play(env: &Env, sc: &Scenario, tag: &str) -> Result<Outcome, Fail> {
     let out_file = dir.join("out.jsonl");
     let ports: Vec<u16> = listeners.iter().map(|l| l.local_addr().map(|a| a.port())).collect::<Result<_, _>>().map_err(|e| skip(&e.to_string()))?;
     if sc.via_config {
-        let mut t = format!("verbose = true\ninteractive = false\nprevent_sleep = false\nserve_port = {web}\ndeduplication = {}\nupdate_position = {}\n", sc.dedup_ms, sc.update_position);
+        let mut t = format!("verbose = {}\ninteractive = false\nprevent_sleep = false\nserve_port = {web}\ndeduplication = {}\nupdate_position = {}\n", !sc.quiet, sc.dedup_ms, sc.update_position);
         // an empty list cannot be written on the command line
         let df_cli = sc.split == 1 && matches!(&sc.df_filter, Some(l) if !l.is_empty());
         let ac_cli = sc.split == 2 && matches!(&sc.aircraft_filter, Some(l) if !l.is_empty());
@@ -225,7 +229,10 @@ pub fn play(env: &Env, sc: &Scenario, tag: &str) -> Result<Outcome, Fail> {
         std::fs::write(&cfg, t).map_err(|e| skip(&e.to_string()))?;
         cmd.env("JET1090_CONFIG", &cfg);
     } else {
-        cmd.args(["--verbose", "--serve-port", &web.to_string(), "--deduplication", &sc.dedup_ms.to_string()]);
+        if !sc.quiet {
+            cmd.arg("--verbose");
+        }
+        cmd.args(["--serve-port", &web.to_string(), "--deduplication", &sc.dedup_ms.to_string()]);
         if sc.update_position {
             cmd.arg("--update-position");
         }
@@ -406,7 +413,7 @@ pub fn scenario_json(sc: &Scenario) -> Value {
     serde_json::json!({
         "references": sc.references.iter().map(|r| r.map(|(a, o)| vec![a, o])).collect::<Vec<_>>(),
         "sends": sc.sends.iter().map(|s| serde_json::json!([s.source, hex::encode(&s.frame), s.pause_ms, s.cut, s.clock_offset_s])).collect::<Vec<_>>(),
-        "df_filter": sc.df_filter, "aircraft_filter": sc.aircraft_filter, "dedup_ms": sc.dedup_ms, "update_position": sc.update_position, "with_file": sc.with_file, "via_config": sc.via_config, "split": sc.split, "long_table": sc.long_table, "cli_dup": sc.cli_dup, "history_expire": sc.history_expire, "track": sc.track,
+        "df_filter": sc.df_filter, "aircraft_filter": sc.aircraft_filter, "dedup_ms": sc.dedup_ms, "update_position": sc.update_position, "with_file": sc.with_file, "via_config": sc.via_config, "split": sc.split, "long_table": sc.long_table, "cli_dup": sc.cli_dup, "history_expire": sc.history_expire, "track": sc.track, "quiet": sc.quiet,
     })
 }
 
@@ -425,5 +432,6 @@ pub fn scenario_of(v: &Value) -> Scenario {
         cli_dup: v["cli_dup"].as_bool().unwrap_or(false),
         history_expire: v["history_expire"].as_u64(),
         track: v["track"].as_array().map(|a| a.iter().map(|x| x.as_u64().unwrap_or(0) as u32).collect()).unwrap_or_default(),
+        quiet: v["quiet"].as_bool().unwrap_or(false),
     }
 }
